@@ -25,13 +25,15 @@ def run_case(B, bp_chunked, c):
         if fn == 0:
             try:
                 return [0, [list(x) for x in B.fill_range(c[1], c[2], c[3])]]
-            except ValueError:
+            except (ValueError, ArithmeticError):   # which exception refuses a step of 0 is not constrained
                 return [1, 1]
         if fn == 1:
             return [list(x) for x in B.trim_rangelist(tup(c[1]), c[2], c[3])]
         if fn == 2:
             return 1 if B.range_contains_overlap(tup(c[1])) else 0
         if fn == 3:
+            if not hasattr(B, '_merge_overlapping_ranges'):
+                return ['missing']     # a private helper: nothing is claimed about it when it no longer exists
             return [list(x) for x in B._merge_overlapping_ranges(tup(c[1]))]
         if fn == 4:
             return [0, [list(x) for x in B.merge_overlapping_ranges(tup(c[1]))]]
@@ -42,7 +44,7 @@ def run_case(B, bp_chunked, c):
                 if c[4] == [] and (c[1] + c[2] + c[3]) % 2:   # None and [] are both used by callers
                     bl = None
                 return [0, [list(x) for x in B.blacklisted_binning(c[1], c[2], c[3], bl, frag)]]
-            except ValueError:
+            except (ValueError, ArithmeticError):
                 return [1, 1]
         if fn == 6:
             jobs = [('chr1', s, e, i) for i, (s, e) in enumerate(c[1])]
